@@ -8,7 +8,8 @@ E1 exploration on the real solve pipeline (`_Simu.Solve` -> `Solvers.Solve_simu`
 * problem: Elastic 2D (QUAD4 3x2 grid, 24 dofs), Thermal 2D (TRI6 3x2 grid, 35 dofs), Beam 2D frame (two members, 18/21
   dofs; joined by a shared node, a fixed connection or a hinged connection = Lagrange multipliers), PhaseField damage
   sub-problem (QUAD4 3x2 grid, 12 dofs; `History` = plain linear solve, `BoundConstrain` = bounded least squares with
-  the bounds of `Get_lb_ub`).
+  the bounds of `Get_lb_ub`), and a user weak form with a NON symmetric operator ("advdiff": Simulations.WeakForms with a
+  non-symmetric conductivity tensor, QUAD4 3x2 grid; K_fc != K_cf^T, conjugate gradients excluded).
 * BC program: EVERY ordered selection of 1..3 distinct atoms of
       dAc  Dirichlet(A, constants)            dAa  Dirichlet(A, arrays; unknowns named in reversed order)
       dBf  Dirichlet(B, functions of x,y,z)   dAB  Dirichlet(A n B again, one unknown)
@@ -52,7 +53,7 @@ from zoo import meshes as Z
 PROPERTY = "C04"
 
 ATOMS = ["dAc", "dAa", "dBf", "dAB", "nC", "lD"]
-PROBLEMS = ["elastic", "thermal", "beam", "damage"]
+PROBLEMS = ["elastic", "thermal", "beam", "damage", "advdiff"]
 EXPECTED_SOLVERS = ["scipy", "lsq_linear", "cg", "bicg", "gmres", "lgmres"]  # + pypardiso, petsc (not installed)
 KRYLOV = ("cg", "bicg", "gmres", "lgmres")
 TOL_DIRECT = 1e-9
@@ -68,12 +69,14 @@ RESOLS = {
     "thermal": ["elim", "lagr_trivial", "lagr_active"],
     "beam": ["elim", "conn_fixed", "conn_hinged"],
     "damage": ["elim"],
+    "advdiff": ["elim", "lagr_trivial", "lagr_active"],
 }
 MODES = {
     "elastic": ["linear", "newton"],
     "thermal": ["linear", "newton"],
     "beam": ["linear", "newton"],
     "damage": ["History", "BoundConstrain", "BoundConstrain_active"],
+    "advdiff": ["linear"],  # NON symmetric operator (user weak form with a non-symmetric conductivity tensor): K_fc is not K_cf^T
 }
 # one implicit time step (statement (i) and the reduced solve hold for the schemes whose solve variable is the displacement /
 # temperature; euler_explicit solves for the acceleration with zero acceleration on constrained dofs: documented, C05)
@@ -81,7 +84,7 @@ DYN_MODES = {"elastic": ["dyn_newmark", "dyn_midpoint", "dyn_hht", "dyn_hht_newm
              "thermal": ["dyn_parabolic"]}
 DYN_DT = 0.37
 GROUNDS = {"elastic": ["first", "last", "none"], "thermal": ["first", "last", "none"], "beam": ["first", "last", "none"],
-           "damage": ["none", "first"]}
+           "damage": ["none", "first"], "advdiff": ["first", "last", "none"]}
 
 
 def programs(maxlen=3):
@@ -115,7 +118,7 @@ def krylov_rtol(name):
 # atoms that alone make the stated system regular (rule used to leave out the ground="none" programs that are singular by
 # construction; run_case re-checks regularity on the dense reference and reports a disagreement as a skipped case)
 SUFFICIENT = {"elastic": {"dAc", "dAa", "dBf"}, "thermal": {"dAc", "dAa", "dBf", "dAB"}, "beam": {"dAc", "dAa", "dBf"},
-              "damage": set(ATOMS)}
+              "damage": set(ATOMS), "advdiff": {"dAc", "dAa", "dBf", "dAB"}}
 
 
 def supported(problem, resol, prog):
@@ -126,7 +129,7 @@ def supported(problem, resol, prog):
 
 
 MESHES = {"elastic": {"base": "QUAD4", "alt": "TRI3"}, "thermal": {"base": "TRI6", "alt": "QUAD8"},
-          "damage": {"base": "QUAD4", "alt": "TRI3"}, "beam": {"base": "SEG2"}}
+          "damage": {"base": "QUAD4", "alt": "TRI3"}, "beam": {"base": "SEG2"}, "advdiff": {"base": "QUAD4", "alt": "TRI3"}}
 
 
 def _factors(problem, tier):
@@ -160,6 +163,8 @@ def cases(tier, seed):
                 # Lagrange resolutions always end in the direct solver (documented fallback), the beam assembly is the
                 # expensive one: quick runs those with scipy and cg only
                 kry = "all" if (tier == "thorough" or (c["resol"] == "elim" and not (problem == "beam" and c["mode"] == "newton"))) else "cg"
+                if problem == "advdiff" and kry == "cg":
+                    kry = "gmres"
                 out.append({"problem": problem, "prog": prog, "mesh": "base", **c, "krylov": kry})
     # implicit time schemes (elimination): thorough = all programs x ground x orphan x scheme; quick = programs of <= 2 atoms x
     # every scheme, 3-atom programs x the first scheme, default ground, without orphan
@@ -237,7 +242,7 @@ def _grid_spec(problem, orphan, mesh="base"):
     x, y = co[:nreal, 0], co[:nreal, 1]
     idx = np.arange(nreal)
     s.coords = co
-    s.unknowns = {"elastic": ["x", "y"], "thermal": ["t"], "damage": ["d"]}[problem]
+    s.unknowns = {"elastic": ["x", "y"], "thermal": ["t"], "damage": ["d"], "advdiff": ["u"]}[problem]
     s.dof_n = len(s.unknowns)
     s.A = idx[_near(x, 0)]
     s.B = idx[_near(y, 0)]
@@ -266,15 +271,16 @@ def _grid_spec(problem, orphan, mesh="base"):
             "nC": ("neu", s.C, [0.5, lambda x, y, z: -0.3 * y], ["x", "y"]),
             "lD": ("line", s.D, [lambda x, y, z: 0.4 * (1 + x)], ["y"]),
         }
-    elif problem == "thermal":
+    elif problem in ("thermal", "advdiff"):
+        nm = s.unknowns[0]
         s.atoms = {
-            "G": ("dir", s.G, [0.4], ["t"]),
-            "dAc": ("dir", s.A, [1.0], ["t"]),
-            "dAa": ("dir", s.A, [arr1 * 30], ["t"]),
-            "dBf": ("dir", s.B, [lambda x, y, z: 2.0 + x], ["t"]),
-            "dAB": ("dir", s.AB, [0.25], ["t"]),
-            "nC": ("neu", s.C, [0.7], ["t"]),
-            "lD": ("line", s.D, [lambda x, y, z: -0.4 * (1 + x)], ["t"]),
+            "G": ("dir", s.G, [0.4], [nm]),
+            "dAc": ("dir", s.A, [1.0], [nm]),
+            "dAa": ("dir", s.A, [arr1 * 30], [nm]),
+            "dBf": ("dir", s.B, [lambda x, y, z: 2.0 + x], [nm]),
+            "dAB": ("dir", s.AB, [0.25], [nm]),
+            "nC": ("neu", s.C, [0.7], [nm]),
+            "lD": ("line", s.D, [lambda x, y, z: -0.4 * (1 + x)], [nm]),
         }
     else:
         s.atoms = {
@@ -411,6 +417,15 @@ def build_simu(spec, mode):
         if mode.startswith("dyn_"):
             simu.rho = 1.7
             simu.Solver_Set_Parabolic_Algorithm(DYN_DT, 0.5)
+        return simu, simu.problemType
+    if p == "advdiff":
+        from EasyFEA.FEM import BiLinearForm, Field, MatrixType
+
+        mesh = spec.zoo.build()
+        fld = Field(mesh.groupElem, 1, MatrixType.rigi)
+        A = np.array([[0.6, 0.5], [-0.3, 0.9]])  # non-symmetric conductivity tensor with a positive definite symmetric part
+        formK = BiLinearForm(lambda u, v: (u.grad @ A).dot(v.grad))
+        simu = Simulations.WeakForms(mesh, Models.WeakForms(fld, formK))
         return simu, simu.problemType
     if p == "damage":
         PF = Models.PhaseField
@@ -593,6 +608,8 @@ def _solver_list(case, tier_all=True):
     if p == "damage" and mode != "History":
         return ["lsq_linear"] if "lsq_linear" in inst else []
     out = [s for s in inst if s != "lsq_linear"]
+    if p == "advdiff":
+        out = [s for s in out if s != "cg"]  # conjugate gradients are defined for symmetric positive definite systems only
     return out
 
 
@@ -630,6 +647,8 @@ def _solver_list(case, tier_all=True):
     if p == "damage" and mode != "History":
         return ["lsq_linear"] if "lsq_linear" in inst else []
     out = [s for s in inst if s != "lsq_linear"]
+    if p == "advdiff":
+        out = [s for s in out if s != "cg"]  # conjugate gradients are defined for symmetric positive definite systems only
     return out
 
 
